@@ -234,6 +234,26 @@ Theorem C11_unbounded_union_assoc_partial : forall s a b c, uwf a -> uwf b -> uw
 Proof. exact uunion_assoc_cells. Qed.
 Print Assumptions C11_unbounded_union_assoc_partial.
 
+(* the height x width of an extended rectangle is the size of its block of clipped cells *)
+Theorem C11_unbounded_size : forall s r c row, uwf r ->
+  uinside r c row <-> (Z.max 1 (x1 r) <= c < Z.max 1 (x1 r) + width (unorm s r)
+                       /\ Z.max 1 (y1 r) <= row < Z.max 1 (y1 r) + height (unorm s r)).
+Proof. exact usize_cells. Qed.
+Print Assumptions C11_unbounded_size.
+(* an unbounded range is never enumerated (resolve_range asserts `not is_unbounded_range`) *)
+Theorem C11_unbounded_not_enumerable : forall s r, uwf r -> unb_rect r = true ->
+  resolve_range (unorm s r) = Raise AssertionError.
+Proof. exact unot_enumerable. Qed.
+Print Assumptions C11_unbounded_not_enumerable.
+(* operands on two sheets: #VALUE! when two named sheets differ, else the results above on the named sheet *)
+Theorem C11_unbounded_sheets : forall sa sb a b, uwf a -> uwf b ->
+  op_inter (VA (unorm sa a)) (VA (unorm sb b))
+    = (if conflict sa sb then Ok (VE VALUE_ERROR) else Ok (umeet_val (pick sa sb) a b))
+  /\ op_union (VA (unorm sa a)) (VA (unorm sb b))
+    = (if conflict sa sb then Ok (VE VALUE_ERROR) else Ok (VA (unorm (pick sa sb) (ujoin a b)))).
+Proof. exact uvalue_sheets. Qed.
+Print Assumptions C11_unbounded_sheets.
+
 (* ---------------------------------------------------------------------------
    (g) R1C1 spellings: each row / column component bare (R, C = the anchor's own),
    absolute (R7) or relative (R[-2]); cells R..C.., ranges R..C..:R..C.., row-only
@@ -256,3 +276,11 @@ Theorem C11_r1c1_spelling_cell : forall s r c ar ac, sheet_ok s = true -> rel_or
   /\ 1 <= comp_val false (ar, ac) c <= MAX_COL /\ 1 <= comp_val true (ar, ac) r <= MAX_ROW.
 Proof. exact r1c1_spelling_cell. Qed.
 Print Assumptions C11_r1c1_spelling_cell.
+(* without an anchor cell: an all-absolute spelling denotes the same boundaries; a bare or relative
+   component is an AssertionError *)
+Theorem C11_r1c1_spellings_no_anchor : forall s sp, sheet_ok s = true -> sp_ok sp -> sp_unambiguous sp = true ->
+  create (form_prefix 0 s ++ sp_text sp) [] None
+  = if sp_absolute sp then bind (from_bounds s (sp_bounds (0, 0) sp)) (fun a => Ok (VA a))
+    else Raise AssertionError.
+Proof. exact r1c1_spellings_no_anchor. Qed.
+Print Assumptions C11_r1c1_spellings_no_anchor.
